@@ -31,6 +31,9 @@ Next ==
             /\ Check(e.pre = e.workers /\ e.arch = e.workers /\ e.post = e.workers, l,
                      "worker gauges differ from the number of live workers (" \o e.phase \o ")")
             /\ UNCHANGED acc
+       [] e.ev = "fresh.read" ->  \* every key was incremented once by each of g goroutines, all for the first time
+            /\ Check(e.got = e.expected, l, "per-status-code totals lost events when several goroutines used a new code at once")
+            /\ UNCHANGED acc
        [] OTHER -> UNCHANGED acc
   /\ l' = l + 1
 
